@@ -11,7 +11,7 @@ for f in os.listdir(src):
     if f in ("demo", "build.log") or f.endswith(".o") or os.path.isdir(os.path.join(src, f)) and f.startswith("_"):
         continue
     p = os.path.join(src, f)
-    if os.path.isfile(p) and os.path.getsize(p) < 2_000_000:
+    if os.path.isfile(p) and os.path.getsize(p) < 2_000_000 and open(p, "rb").read(4) != b"\x7fELF":
         shutil.copy(p, os.path.join(dst, f))
 vpath = os.environ.get("VERIFY_LOG", "/tmp/mut/verify_%s.log" % os.path.basename(wt))
 vlog = open(vpath).read() if os.path.exists(vpath) else ""
